@@ -16,7 +16,9 @@ EXPLANATION = (
     "pieces but the one ending the original datagram, also under repeated fragmentation; (F-UNIT) with NFB = "
     "(mtu - IHL*4)/8 the first piece is (header{TL = IHL*4 + NFB*8}, first NFB*8 octets), the remainder is "
     "(header{TL - NFB*8, FO + NFB}, rest) and is fragmented again, and no other header field is rewritten. The "
-    "comparison is modulo renaming of locals, statement order and algebraic spelling. Not decided: that pieces fit "
+    "comparison is modulo renaming of locals, statement order and algebraic spelling. (P-PANIC) every arithmetic overflow, "
+    "division, unwrap and Message contract reachable from fragment() inside the module is discharged by intervals (IHL = 5, "
+    "TL / FO in the decoder's ranges) or a reviewed entry of tables/panic_c10.json, so fragment() returns for every header and MTU >= 68. Not decided: that pieces fit "
     "the MTU, are contiguous and carry the right bytes for all lengths/MTUs (16-bit arithmetic with recursion).")
 ASSUMPTIONS = ["Message::cut(n) splits off exactly the first n bytes (C07, not decided numerically)"]
 
@@ -24,6 +26,7 @@ FRAGS = "fragmentation::Fragments"
 
 
 def run(ctx):
+    f_panic(ctx)
     """All three rules are decided on the formulas extracted from the two functions (ea/symx.py, effects mode): the
     results do not depend on the names of locals, on statement order or on how the arithmetic is spelled."""
     from .. import symx as S
@@ -98,8 +101,11 @@ def run(ctx):
     probs = []
     if frag_ok:
         v = l[2][0]
-        want = ("field", ("upd", ff.key, 0, (("call", newf.key, (M,)), H, B)), "fragments")
-        if v != want:
+        # Fragmentation::new(mtu, ..) may take further arguments (a capacity hint, say): it is checked below that the
+        # instance it returns starts with no fragments and that very mtu
+        shape_ok = v[0] == "field" and v[2] == "fragments" and v[1][0] == "upd" and v[1][1] == ff.key and v[1][2] == 0 and len(v[1][3]) == 3 \
+            and v[1][3][1:] == (H, B) and v[1][3][0][0] == "call" and v[1][3][0][1] == newf.key and v[1][3][0][2][:1] == (M,)
+        if not shape_ok:
             probs.append("Fragmented carries %s, expected the fragments produced by Fragmentation::new(mtu).fragment(header, body)" % S.term_str(v)[:200])
     else:
         probs.append("no Fragmented result to inspect")
@@ -224,3 +230,15 @@ def _lin_add(a, b, sign=1):
     for t_, c_ in b[0]:
         co[t_] = co.get(t_, 0) + sign * c_
     return (tuple(sorted(((t_, c_) for t_, c_ in co.items() if c_), key=repr)), (a[1] + sign * b[1]) % (1 << 32))
+
+
+def f_panic(ctx):
+    """P-PANIC on the sending side: every arithmetic overflow, division, index, unwrap and Message contract reachable
+    from fragment() inside the fragmentation module is discharged by the interval analysis (IHL = 5, TL and FO in the
+    decoder's ranges) or by a reviewed entry of tables/panic_c10.json; a new undischarged site means some (header,
+    MTU) in the property's domain makes fragment() panic instead of returning a partition."""
+    from . import panic_common as PC
+    prog = ctx.prog()
+    fr = prog.one("protocols::ipv4::fragmentation::fragment")
+    st = PC.scan(ctx, "P-PANIC", [fr.key], lambda k: k.startswith("elvis_core::protocols::ipv4::fragmentation"), PC.load_table("panic_c10.json"))
+    ctx.require(st["sites"] >= 10, "P-PANIC: only %d sites enumerated on the fragmentation path" % st["sites"])
